@@ -149,18 +149,79 @@ func verifC09_Inherit() {
 	}
 	ns := vSpec(nl)
 	verifAssume(ns.URLs[0].URL.Exact == exact && ns.URLs[1].URL.Prefix == old.spec.URLs[1].URL.Prefix)
+	// the unchanged rule may sit at another position in the new spec (a rule was added in front)
+	k := 0
+	if verifBool("ruleInsertedInFront") {
+		front := &URLRule{URLRule: urlrule.URLRule{URL: urlrule.StringMatch{Exact: "/zz-new"}, PolicyRef: "loose"}}
+		ns.URLs = append([]*URLRule{front}, ns.URLs...)
+		k = 1
+		verifCover("rule-moved-to-another-position")
+	}
 	nw := &RateLimiter{spec: ns}
 	nw.Inherit(old)
 	old.Close()
 	if !changed {
-		verifAssert(nw.spec.URLs[0].rl == oldLimiter, "unchanged-rule-keeps-the-limiter-object")
+		verifAssert(nw.spec.URLs[k].rl == oldLimiter, "unchanged-rule-keeps-the-limiter-object")
 		res, resp := vHandle(nw, post())
 		verifAssert(res == resultRateLimited && resp != nil && resp.StatusCode() == 429, "accumulated-state-survives-the-reload")
 		verifCover("state-kept")
 	} else {
-		verifAssert(nw.spec.URLs[0].rl != oldLimiter && nw.spec.URLs[0].rl != nil, "changed-policy-gets-a-fresh-limiter")
+		verifAssert(nw.spec.URLs[k].rl != oldLimiter && nw.spec.URLs[k].rl != nil, "changed-policy-gets-a-fresh-limiter")
 		res, _ := vHandle(nw, post())
 		verifAssert(res == "", "fresh-limiter-admits")
 		verifCover("fresh-limiter")
+	}
+}
+
+// verifC09_FilterPolicy: the limiter the filter builds for a rule has exactly the configured
+// policy - an explicit zero timeout stays zero (reject at once, never wait), omitted values
+// get the documented defaults (50 per 10ms, timeout 100ms) - and a burst on it behaves so.
+func verifC09_FilterPolicy() {
+	timeouts := []string{"", "0s", "5ms", "100ms"}
+	tvals := []time.Duration{100 * time.Millisecond, 0, 5 * time.Millisecond, 100 * time.Millisecond}
+	periods := []string{"", "10ms", "50ms", "1h"}
+	pvals := []time.Duration{10 * time.Millisecond, 10 * time.Millisecond, 50 * time.Millisecond, time.Hour}
+	ti, pi := verifChoose("timeoutDuration", len(timeouts)), verifChoose("limitRefreshPeriod", len(periods))
+	limit := verifChoose("limitForPeriod", 3) // 0 = omitted
+	wantLimit := limit
+	if limit == 0 {
+		wantLimit = 50
+	}
+	spec := &Spec{
+		Policies:         []*Policy{{Name: "p", TimeoutDuration: timeouts[ti], LimitRefreshPeriod: periods[pi], LimitForPeriod: limit}},
+		DefaultPolicyRef: "p",
+		URLs:             []*URLRule{{URLRule: urlrule.URLRule{URL: urlrule.StringMatch{Prefix: "/"}}}},
+	}
+	verifAssume(spec.Validate() == nil)
+	vMono = 1000
+	rl := &RateLimiter{spec: spec}
+	rl.Init()
+	pol := verifGetField(spec.URLs[0].rl, "policy").(*librl.Policy)
+	verifAssert(pol.TimeoutDuration == tvals[ti], "timeout-as-configured")
+	verifAssert(pol.LimitRefreshPeriod == pvals[pi], "refresh-period-as-configured")
+	verifAssert(pol.LimitForPeriod == wantLimit, "limit-as-configured")
+	// a burst of limit+1 requests at one instant
+	vTimerWaits = 0
+	get := func() *httpprot.Request {
+		return &httpprot.Request{Request: &http.Request{Method: "GET", URL: &url.URL{Path: "/x"}, Header: http.Header{}}}
+	}
+	for i := 0; i < wantLimit && i < 3; i++ {
+		res, _ := vHandle(rl, get())
+		verifAssert(res == "", "request-within-the-limit-admitted")
+	}
+	if wantLimit <= 2 {
+		verifAssert(vTimerWaits == 0, "spare-permit-means-no-wait")
+		res, resp := vHandle(rl, get())
+		if tvals[ti] < pvals[pi] {
+			// the next period starts after the timeout: rejected at once
+			verifAssert(res == resultRateLimited && resp != nil && resp.StatusCode() == 429 && vTimerWaits == 0, "request-beyond-limit-and-timeout-rejected-at-once")
+			verifCover("rejected-at-once")
+		} else {
+			verifAssert(res == "" && vTimerWaits == 1, "request-beyond-the-limit-waits-within-the-timeout")
+			verifCover("waited")
+		}
+	}
+	if ti == 1 {
+		verifCover("explicit-zero-timeout")
 	}
 }
